@@ -49,3 +49,25 @@ package export
 //@   ensures [keepmax] s.max == old(s.max)
 //@   ensures [nilmeansnone] (old(s.min) == nil || old(s.max) == nil) ==> e == nil && s.min == old(s.min)
 //@   assigns s.min, s.e.*
+
+// ---- C07: the class of a label survives export ----
+// integer labels are printed as integer literals, definition and hidden labels
+// as identifiers (never quoted: quoting would turn them into regular fields),
+// regular labels through ast.NewStringLabel (quoted whenever a bare identifier
+// would be read back as something else).
+//@ func (*exporter).identString
+//@   assumed A-int: the identifier text of a definition or hidden label (with package mangling for inlined imports)
+//@ func ast.NewLit
+//@   assumed A-int: allocates a literal node
+//@   ensures result != nil && fresh(result) && result.Kind == tok
+//@ func (*adt.OpContext).IndexToString
+//@   assumed A-int: label table lookup (verified under C19 for the runtime index)
+//@ func strconv.Itoa
+//@   assumed A-ext strconv.Itoa
+//@ func (*exporter).stringLabel
+//@   arith bv
+//@   requires e != nil
+//@   ensures [int] adt.FeatureType(f & 15) == adt.IntLabel ==> isType(result, *ast.BasicLit) && result.(*ast.BasicLit).Kind == token.INT
+//@   ensures [ident] adt.FeatureType(f & 15) == adt.DefinitionLabel || adt.FeatureType(f & 15) == adt.HiddenLabel || adt.FeatureType(f & 15) == adt.HiddenDefinitionLabel ==> isType(result, *ast.Ident)
+//@   ensures [regular] adt.FeatureType(f & 15) == adt.StringLabel && isType(result, *ast.BasicLit) ==> result.(*ast.BasicLit).Kind == token.STRING
+//@   assigns heap
